@@ -40,6 +40,20 @@ impl<'a> LocalVariables<'a> {
             in_loop: false,
         }
     }
+    /// A copy of this scope as it is now
+    #[must_use]
+    pub fn fork(&self) -> Self {
+        Self {
+            variables: self.variables.clone(),
+            lower_layer: self.lower_layer,
+            function: self.function.clone(),
+            interpreter: self.interpreter,
+            in_loop: self.in_loop,
+        }
+    }
+    pub fn absorb(&mut self, layer: LocalVariableMap) {
+        self.variables.extend(layer);
+    }
     pub fn insert(&mut self, name: Arc<str>, variable: LocalVariable) {
         self.variables.insert(name, variable);
     }
